@@ -66,10 +66,20 @@ class V(SV):
 class SSet(SV):
     """a set given by the sequence of its elements (membership = seq.contains), optionally
     minus the elements of a second sequence; no arrays, lambdas or quantifiers"""
-    def __init__(self, inc=None, exc=None, pred=None):
+    def __init__(self, inc=None, exc=None, pred=None, sid=None):
         # either sequence-backed (inc, optional exc) or given by a membership predicate
-        # (a meta-level function  Val term -> Bool term), e.g. a specification predicate
-        self.inc, self.exc, self.pred = inc, exc, pred
+        # (a meta-level function  Val term -> Bool term), e.g. a specification predicate;
+        # sid: a constant of sort SetS naming the set (for passing it to specification functions)
+        self.inc, self.exc, self.pred, self.sid = inc, exc, pred, sid
+
+    def setid(self, ex):
+        if self.sid is None:
+            if ex is None or ex.spec_mode:
+                raise Unsupported('a constructed set passed to a specification function inside a specification')
+            self.sid = fresh('set', vl.SetS)
+            k = fresh('k', Val)
+            ex.assume(z3.ForAll([k], vl.set_mem(self.sid, k) == self.mem(k)))
+        return self.sid
 
     def mem(self, k):
         if self.pred is not None:
@@ -189,7 +199,7 @@ def fresh(prefix, sort):
 class Engine:
     """Holds the repository source, the sidecar and the spec-function table."""
 
-    def __init__(self, repo, sidecar, feas_timeout_ms=400):
+    def __init__(self, repo, sidecar, feas_timeout_ms=150):
         self.repo = repo
         self.sidecar = sidecar
         self.spec_funcs = {}      # name -> (z3 func, param kinds, ret kind)
@@ -200,7 +210,7 @@ class Engine:
 
     # -- spec functions ------------------------------------------------------
     KIND_SORT = {'val': Val, 'str': vl.String, 'int': vl.Int, 'list': SeqVal, 'tuple': SeqVal, 'node': Val,
-                 'set': SeqVal, 'Model': vl.ModelS, 'bool': vl.Bool, 'zint': vl.Int, 'zstr': vl.String,
+                 'set': vl.SetS, 'Model': vl.ModelS, 'bool': vl.Bool, 'zint': vl.Int, 'zstr': vl.String,
                  'seq': SeqVal, 'map': vl.MapVal}
 
     def _spec_calls(self, c):
@@ -260,7 +270,7 @@ class Engine:
         if ty in ('val', 'node'):
             return V(z)
         if ty == 'set':
-            return SSet(z)
+            return SSet(pred=lambda k, z=z: vl.set_mem(z, k), sid=z)
         if ty == 'Model':
             return SModel(z)
         if ty == 'bool':
@@ -287,7 +297,7 @@ class Engine:
         if ty == 'set':
             if not isinstance(sv, SSet):
                 raise Unsupported('expected a set')
-            return sv.plain()
+            return sv.setid(getattr(self, '_cur_ex', None))
         if ty == 'Model':
             if not isinstance(sv, SModel):
                 raise Unsupported('expected a model')
@@ -335,8 +345,8 @@ class Engine:
                 return V(VNone)
             return self.make_param(name, {'optlist': 'list', 'optdict': 'dict', 'optodict': 'odict'}[ty], assume, ex)
         if ty == 'set':
-            f = z3.Function('set_%s!%d' % (name, next(_counter)), Val, vl.Bool)
-            return SSet(pred=lambda k, f=f: f(k))
+            z = fresh(name, vl.SetS)
+            return SSet(pred=lambda k, z=z: vl.set_mem(z, k), sid=z)
         if ty == 'Model':
             return SModel(fresh(name, vl.ModelS))
         if ty == 'dict':
@@ -946,6 +956,26 @@ class Exec:
                 return V(vtuple([seq[0], seq[2]]))
             raise Unsupported('slice step')
         kind, seq = self.seq_parts(v, node)
+        if kind is None and self.spec_mode:
+            # total semantics on a dynamically typed value: slice it as what it is
+            def sl_of(seq_):
+                n_ = z3.Length(seq_)
+
+                def bnd(b, default):
+                    if b is None:
+                        return default
+                    x = self.evv(b)
+                    i = get_i(x)
+                    r = z3.If(i < 0, z3.If(i + n_ < 0, 0, i + n_), z3.If(i > n_, n_, i))
+                    return r if static_kind(x) == 'VInt' else z3.If(is_none(x), default, r)
+                lo_, hi_ = bnd(sl.lower, z3.IntVal(0)), bnd(sl.upper, n_)
+                return lo_, z3.If(hi_ > lo_, hi_ - lo_, 0)
+            lo_s, ln_s = sl_of(get_s(v))
+            lo_l, ln_l = sl_of(get_elems(v))
+            lo_t, ln_t = sl_of(get_items(v))
+            return V(z3.If(is_str(v), VStr(z3.SubString(get_s(v), lo_s, ln_s)),
+                           z3.If(is_list(v), VList(z3.SubSeq(get_elems(v), lo_l, ln_l)),
+                                 VTuple(z3.SubSeq(get_items(v), lo_t, ln_t)))))
         if kind is None:
             if self.spec_mode:
                 raise Unsupported('slice of dynamically typed value in a spec')
